@@ -203,13 +203,13 @@ def run(ctx):
     cfg = tlc.write_cfg(os.path.join(ctx.scratch, "script.cfg"), init="ScriptInit", next="ScriptNext", constants=sconsts,
                         invariants=INVARIANTS, deadlock=False)
     sts = []
-    BATCH = 1500         # TLC re-reads the script file for every initial state: keep the files small
+    BATCH = 5000
     for b0 in range(0, n_scripts, BATCH):
         sf = os.path.join(ctx.scratch, "scripts_%d.json" % b0)
         with open(sf, "w") as f:
             json.dump(scripts[b0:b0 + BATCH], f)
         res, part = rc.dump_states("Script_ControlRefresh", cfg, ctx.scratch, keep=lambda b: '"Refresh"' in b,
-                                   env={"TRACE_FILE": sf}, timeout=600 if ctx.quick else 3000)
+                                   env={"TRACE_FILE": sf}, workers=1, timeout=600 if ctx.quick else 3000)
         ctx.add_tlc(res, "scripted 3-snapshot sequences, %d peers, scripts %d.." % (n_peers, b0 + 1))
         if res.violation:
             ctx.violation("TLC: %s violated on a scripted sequence" % res.invariant,
